@@ -52,9 +52,15 @@ pub fn gen_spec(rng: &mut Rng, with_overrides: bool) -> (CmdSpec, BTreeMap<Strin
     }
     let mut ids = arg_ids.clone();
     ids.extend(c.groups.iter().map(|g| g.id.clone()));
+    let group_members: Vec<(String, Vec<String>)> = c.groups.iter().map(|g| (g.id.clone(), g.members.clone())).collect();
     for g in c.groups.iter_mut() {
         if rng.chance(1, 4) {
             g.conflicts = pick_some(rng, &arg_ids, "", 1);
+            // ... or another group as a whole (one that shares no member with this one)
+            let others: Vec<&String> = group_members.iter().filter(|(id, m)| *id != g.id && !m.iter().any(|x| g.members.contains(x))).map(|(id, _)| id).collect();
+            if !others.is_empty() && rng.coin() {
+                g.conflicts = vec![(*rng.pick(&others)).clone()];
+            }
         }
         if rng.chance(1, 4) {
             g.requires = pick_some(rng, &arg_ids, "", 1);
